@@ -231,8 +231,9 @@ Section WithMerge.
         rewrite (merge_stack_ext lvl (x :: xs) _ B) by (intros; apply Hm).
         apply merge_stack_view. }
       right. constructor; simpl; auto.
-      intros k. rewrite <- (Hv k). unfold dirty; simpl.
-      rewrite !(sget_app fm (top s)). apply sget_ext. rewrite !sget_app. fold B. apply Hm'.
+      + intros k. rewrite <- (Hv k). unfold dirty; simpl.
+        rewrite !(sget_app fm (top s)). apply sget_ext. rewrite !sget_app. fold B. apply Hm'.
+      + destruct (olist (mid s)); [exact Hca|exact I].
     - (* LHandover *)
       destruct (merger s) eqn:Em; try discriminate.
       destruct (base s) eqn:Eb, (mid s) eqn:Emid;
